@@ -1,0 +1,15 @@
+//go:build verif
+
+// Verification hook (add-only, compiled only with -tags verif) for the C10
+// endpoint-manager mode of /verif/harness/cmd/c10: the exported
+// NewIfaceAddrsUpdate cannot express "interface gone" (nil address set), which
+// the interface monitor sends when a host interface disappears.  Nothing here
+// changes behaviour.
+
+package intdataplane
+
+// VerifC10IfaceGone is the message the dataplane driver sends when an interface has been removed.
+func VerifC10IfaceGone(name string) any { return &ifaceAddrsUpdate{Name: name} }
+
+// VerifC10AllInterfaces is the pseudo interface name used for the wildcard ('*') host endpoint.
+func VerifC10AllInterfaces() string { return allInterfaces }
